@@ -66,8 +66,7 @@ proj_is(ec_point_proj_p pt, unsigned idx) {
 	return (env_point_is(&aff, idx));
 }
 
-void harness(void) {
-	V_BEGIN();
+static void body(void) {
 	sb_garbage = IN.garbage;
 	unsigned i = IN.i, j = IN.j, want;
 	int r;
@@ -186,4 +185,10 @@ void harness(void) {
 #else
 #error "unknown OP"
 #endif
+}
+
+void harness(void) {
+	V_BEGIN();
+	body();
+	ENV_FINAL();
 }
